@@ -199,7 +199,7 @@ contract(
         "    and filterevents[i].duration == old(filterevents[i].duration) and filterevents[i].data == old(filterevents[i].data)"
         "    for i in range(len(filterevents)))",
     ],
-    modifies=["alloc"],
+    modifies=["alloc"], writes_fresh=["*"],
     raises=[],
 )
 
@@ -275,7 +275,7 @@ contract(
         "    for j in range(len(result)) for t in instants(result[j].timestamp, end(result[j])))",
         "sum((result[j].duration for j in range(len(result))), timedelta(0)) == covered_measure(old(events1 + events2))",
     ],
-    modifies=["alloc", "Event.data"],
+    modifies=["alloc", "Event.data"], writes_fresh=["*"],
     raises=[],
     loops={
         0: dict(
